@@ -11,11 +11,14 @@
 (* window.                                                                 *)
 (***************************************************************************)
 EXTENDS SDSIter, TLC, Json, FiniteSets
-CONSTANTS MaxN, Ks
+CONSTANTS MaxN, Ks, Memory
 
-VARIABLES n, caps, it, hist, yielded
-vars == <<n, caps, it, hist, yielded>>
-View == <<n, caps, it>>
+VARIABLES n, caps, it, hist, yielded, last
+vars == <<n, caps, it, hist, yielded, last>>
+\* The window hides what an implementation may remember between calls (a cached word, a block limit, a
+\* candidate at either end), so with Memory = 1 the VIEW also keeps the previous call's operation and
+\* whether it returned an item: every (window, previous operation) is expanded with every call.
+View == <<n, caps, it, IF Memory = 1 THEN last ELSE 0>>
 
 KArgs(cnt) == (Ks \cup ({cnt, cnt - 1} \cap Nat)) \cup {-1}
 
@@ -30,6 +33,7 @@ Init == /\ n \in 0..MaxN
         /\ it = NewIter(0, n)
         /\ hist = << >>
         /\ yielded = {}
+        /\ last = << >>
 
 Entry(c, r) == [c |-> c, res |-> r.res, lo |-> r.it.lo, hi |-> r.it.hi]
 
@@ -40,6 +44,7 @@ Next == \E c \in Calls(caps, Remaining(it)) :
               /\ hist' = h
               /\ yielded' = IF c.op \in {"len", "clone"} \/ r.res = INone THEN yielded ELSE yielded \cup {r.res}
               /\ UNCHANGED <<n, caps>>
+              /\ last' = <<c.op, r.res = INone>>
               /\ PrintT(<<"REPLAY", ToJson([k |-> "iter", n |-> n, de |-> caps.de, exact |-> caps.exact, steps |-> h])>>)
 
 Spec == Init /\ [][Next]_vars
